@@ -103,10 +103,38 @@ func Loop(r lineReader, p Parser, vm *vm.Type, doOut bool) {
 // literal open. It counts tokens, so braces, brackets and quotes inside string
 // literals and comments do not count.
 func complete(input string) bool {
-	blocksOpen, bracketsOpen := 0, 0
-	// line counts the line breaks seen; openedOn is the line on which the
-	// outermost block or literal that is still open began
+	// open holds the openers that are not closed yet, innermost last; line counts
+	// the line breaks seen, and openedOn is the line on which the outermost
+	// construct that is still open began
+	var open []byte
 	line, openedOn := 0, 0
+
+	// delimiter accounts for one brace or bracket; it reports true when no
+	// further input can make the text complete, so that the parser has to report it
+	delimiter := func(c byte) bool {
+		switch c {
+		case '{', '[':
+			if len(open) == 0 {
+				openedOn = line
+			}
+			open = append(open, c)
+			return false
+		}
+		opener := byte('{')
+		if c == ']' {
+			opener = '['
+		}
+		for i := len(open) - 1; i >= 0; i-- {
+			if open[i] == opener {
+				// closes it, and with it whatever was opened inside it and never closed
+				open = open[:i]
+				return false
+			}
+		}
+		// a closer without an opener: inside a construct that began on an earlier line it is left to
+		// the parser, which gets the whole construct when that closes; otherwise nothing can make up for it
+		return len(open) == 0 || openedOn == line
+	}
 
 	l := lexer.NewLexer(input)
 	for l.Next() {
@@ -116,13 +144,31 @@ func complete(input string) bool {
 			}
 			// any other lexer error is for the parser to report, on the whole block or literal the
 			// offending line belongs to: what follows the last token cannot be tokenised and is
-			// judged on its characters
-			blocks, brackets, inString := countOpen(input[l.Token.To():])
+			// judged on its characters, skipping string literals and comments as well as that can be done by hand
+			inString, inComment, escaped := false, false, false
+			for _, c := range input[l.Token.To():] {
+				if c == '\n' {
+					line++
+				}
+				switch {
+				case inComment:
+					inComment = c != '\n'
+				case inString:
+					inString = c != '"' || escaped
+					escaped = c == '\\' && !escaped
+				case c == '"':
+					inString = true
+				case c == ';':
+					inComment = true
+				case c == '{' || c == '}' || c == '[' || c == ']':
+					if delimiter(byte(c)) {
+						return true
+					}
+				}
+			}
 			if inString {
 				return false
 			}
-			blocksOpen += blocks
-			bracketsOpen += brackets
 			break
 		}
 		if l.Token.Type == token.EOL {
@@ -132,61 +178,15 @@ func complete(input string) bool {
 		if l.Token.Type != token.NotSticky {
 			continue
 		}
-		if blocksOpen <= 0 && bracketsOpen <= 0 {
-			openedOn = line
-		}
 		switch l.Token.Value {
-		case "{":
-			blocksOpen++
-		case "}":
-			blocksOpen--
-		case "[":
-			bracketsOpen++
-		case "]":
-			bracketsOpen--
-		}
-		if blocksOpen < 0 || bracketsOpen < 0 {
-			if (blocksOpen > 0 || bracketsOpen > 0) && openedOn != line {
-				// a closer without an opener inside a construct that began on an earlier line: the
-				// construct is still being entered, and its own closer hands the whole of it to the parser
-				blocksOpen, bracketsOpen = max(blocksOpen, 0), max(bracketsOpen, 0)
-				continue
+		case "{", "}", "[", "]":
+			if delimiter(l.Token.Value[0]) {
+				return true
 			}
-			// no further input can make up for a closer without an opener
-			return true
 		}
 	}
 
-	return blocksOpen <= 0 && bracketsOpen <= 0
-}
-
-// countOpen counts the braces and brackets of text that cannot be tokenised,
-// skipping string literals and comments as well as it can be done by hand. It
-// also reports whether the text ends inside a string literal.
-func countOpen(text string) (blocks, brackets int, inString bool) {
-	inComment, escaped := false, false
-	for _, c := range text {
-		switch {
-		case inComment:
-			inComment = c != '\n'
-		case inString:
-			inString = c != '"' || escaped
-			escaped = c == '\\' && !escaped
-		case c == '"':
-			inString = true
-		case c == ';':
-			inComment = true
-		case c == '{':
-			blocks++
-		case c == '}':
-			blocks--
-		case c == '[':
-			brackets++
-		case c == ']':
-			brackets--
-		}
-	}
-	return blocks, brackets, inString
+	return len(open) == 0
 }
 
 func processInput(input string, p Parser, vm *vm.Type, doOut bool) {
